@@ -24,9 +24,22 @@ ExpectedSlices(op, old, new) ==
     [] op[1] = 2 -> <<<<2, SubSeq(new, op[4] + 1, op[4] + op[5])>>>>
     [] op[1] = 3 -> <<<<1, SubSeq(old, op[2] + 1, op[2] + op[3])>>, <<2, SubSeq(new, op[4] + 1, op[4] + op[5])>>>>
 
+(* the expansion consumed through other Iterator methods gives the matching  *)
+(* part of the same sequence of changes                                     *)
+ViaOk(v, exp) ==
+  LET n == Len(exp) IN
+  CASE v[1] \in {"skip", "nth"} -> v[3] = SubSeq(exp, v[2] + 1, n)
+    [] v[1] = "step2" -> v[3] = [i \in 1..((n + 1) \div 2) |-> exp[2 * i - 1]]
+    [] v[1] = "count" -> v[2] = n
+    [] v[1] = "last" -> v[3] = (IF n = 0 THEN <<>> ELSE <<exp[n]>>)
+    [] v[1] = "size_hint" -> v[2] <= n /\ (v[3][1] = -1 \/ v[3][1] >= n)
+    [] OTHER -> TRUE
+
 Expand1Viol(r) ==
   IF r.panic THEN {"panic"}
   ELSE (IF r.changes = ExpectedChanges(r.op, r.old, r.new) THEN {} ELSE {"changes"})
+       \cup (IF "via" \in DOMAIN r /\ \E k \in 1..Len(r.via) : ~ViaOk(r.via[k], ExpectedChanges(r.op, r.old, r.new))
+             THEN {"changes"} ELSE {})
        \cup (IF r.slices = ExpectedSlices(r.op, r.old, r.new) THEN {} ELSE {"slices"})
        \cup (IF r.reapplied = <<r.op>> THEN {} ELSE {"reapply"})
        \* ... also when the capturing hook is handed over by reference
